@@ -468,10 +468,10 @@ def run(ck):
     cases = []
     for k in progs.GROUPS:
         for (op, a, r) in UNARY:
-            for mode in ("identity", "tiny", "thin", "thin", "generic", "large"):
+            for mode in ("identity", "tiny", "thin", "thin", "generic", "large", "mixed"):
                 cases.append((k, op, (a,), r, mode))
         for (op, a, b, r) in BINARY:
-            for mode in ("identity", "tiny", "thin", "thin", "generic", "large"):
+            for mode in ("identity", "tiny", "thin", "thin", "generic", "large", "mixed"):
                 cases.append((k, op, (a, b), r, mode))
     reps = 4 if thorough else 1
     ci = 0
@@ -492,9 +492,13 @@ def run(ck):
                 continue
             types = [typ_of(c, k) for c in args]
             tree = Node(op, [Leaf(i, t) for i, t in enumerate(types)], typ_of(r, k))
-            if op == "Jinvp" and mode in ("identity", "tiny", "thin"):
+            if op == "Jinvp" and mode in ("identity", "tiny", "thin", "mixed"):
                 continue        # outside C04's stated domain (zero rotation)
+            if mode == "mixed" and k == "Sim3" and op in ("Log", "Jinvp", "Exp", "Retr", "add"):
+                continue        # the documented truncation bound needs |ad xi| small for every item: covered by the other modes
             lsh = list(bshapes) if bshapes is not None else [(), ()] if rep % 2 == 0 else lshapes_for(rng, 2)
+            if mode == "mixed":
+                lsh = [(6,), (6,)] if rep % 2 == 0 else [(2, 3), (2, 3)]
             leaves = []
             for i, t in enumerate(types):
                 md = mode
